@@ -570,8 +570,23 @@ func LexDecodeRule(w *World, r *Result, rule string) {
 				copies := 0
 				for blk := range body {
 					for _, i2 := range blk.Instrs {
-						add, ok := i2.(*ssa.BinOp)
-						if !ok || add.Op != token.ADD || !isString(add.Type()) {
+						// acc + c   or   builder.WriteString(c) / WriteByte(c)
+						var copied ssa.Value
+						var at token.Pos
+						switch y := i2.(type) {
+						case *ssa.BinOp:
+							if y.Op == token.ADD && isString(y.Type()) {
+								copied, at = y.Y, y.Pos()
+							}
+						case *ssa.Call:
+							if callee := y.Call.StaticCallee(); callee != nil && len(y.Call.Args) == 2 {
+								switch callee.String() {
+								case "(*strings.Builder).WriteString", "(*strings.Builder).WriteByte", "(*strings.Builder).WriteRune", "(*bytes.Buffer).WriteString", "(*bytes.Buffer).WriteByte":
+									copied, at = y.Call.Args[1], y.Pos()
+								}
+							}
+						}
+						if copied == nil {
 							continue
 						}
 						var positions []ssa.Value
@@ -595,13 +610,13 @@ func LexDecodeRule(w *World, r *Result, rule string) {
 							positions = append(positions, pv)
 							return true
 						}
-						if !collect(add.Y, 0) {
+						if !collect(copied, 0) {
 							continue
 						}
 						copies++
 						for _, pv := range positions {
 							if pv != probePos {
-								bad = append(bad, w.Pos(add.Pos()))
+								bad = append(bad, w.Pos(at))
 							}
 						}
 					}
